@@ -33,6 +33,12 @@ class Num (α : Type) extends Add α, Sub α, Mul α, Div α, Neg α, OfScientif
   pmod : α → α → α
   /-- neither NaN nor ±inf -/
   finite : α → Bool
+  /-- the value `float()` gives a plain decimal: `±mant · 10^exp10` (correctly rounded at `Float`) -/
+  ofDecimal : (neg : Bool) → (mant : Nat) → (exp10 : Int) → α
+  /-- `float("inf")`, `float("nan")` (junk at carriers without them; only reachable from the
+      spellings `inf`/`nan`, which are outside every property's numeric domain) -/
+  inf : α
+  nan : α
 
 /-- … plus the libm calls. -/
 class NumT (α : Type) extends Num α where
@@ -128,6 +134,34 @@ def pmod (x y : Float) : Float :=
     else
       if y < 0 then -0.0 else 0.0
 
+/-- `n · 2^e2`, correctly rounded to nearest-even (for results in the normal range) -/
+def natScaleRN (n : Nat) (e2 : Int) : Float :=
+  if n = 0 then 0.0 else
+  let l := n.log2
+  if l ≤ 62 then (n.toUInt64.toFloat).scaleB e2
+  else
+    let s := l - 62
+    let q := n >>> s
+    let sticky : Nat := if n % 2 ^ s ≠ 0 then 1 else 0
+    ((q ||| sticky).toUInt64.toFloat).scaleB (e2 + Int.ofNat s)
+
+/-- decimal → double as CPython's `float()` (David Gay's strtod) does it: correctly rounded -/
+def ofDecimal (neg : Bool) (m : Nat) (e : Int) : Float :=
+  let sgn (x : Float) : Float := if neg then -x else x
+  if m = 0 then sgn 0.0 else
+  let digits : Int := Int.ofNat (toString m).length
+  if e + digits > 400 then sgn (1.0 / 0.0)
+  else if e + digits < -400 then sgn 0.0
+  else if e ≥ 0 then sgn (natScaleRN (m * 10 ^ e.toNat) 0)
+  else
+    let d := 10 ^ (-e).toNat
+    -- enough extra bits that the quotient has at least 66 significant bits
+    let sh := (66 + d.log2 + 1) - m.log2
+    let num := m <<< sh
+    let q := num / d
+    let sticky : Nat := if num % d ≠ 0 then 1 else 0
+    sgn (natScaleRN (2 * q + sticky) (-(Int.ofNat sh) - 1))
+
 end FloatImpl
 
 instance : Num Float where
@@ -138,6 +172,9 @@ instance : Num Float where
   abs := Float.abs
   pmod := FloatImpl.pmod
   finite x := x.isFinite
+  ofDecimal := FloatImpl.ofDecimal
+  inf := 1.0 / 0.0
+  nan := 0.0 / 0.0
 
 instance : NumT Float where
   rpow := Float.pow
@@ -159,6 +196,11 @@ instance : NumT Float where
   abs := fun a => if a < 0 then -a else a
   pmod a b := a - b * ((a / b).floor : Rat)
   finite _ := true
+  ofDecimal neg m e :=
+    let v : Rat := if e ≥ 0 then (m : Rat) * (10 : Rat) ^ e.toNat else (m : Rat) / (10 : Rat) ^ (-e).toNat
+    if neg then -v else v
+  inf := 0
+  nan := 0
 
 end Cm
 
